@@ -8,7 +8,9 @@ FUNCTIONS = [{'q': 'uxarray.grid.connectivity.close_face_nodes',
     'uxarray.io._mpas._parse_face_edges@dual',
     'uxarray.io._mpas._parse_edge_nodes@primal',
     'uxarray.io._mpas._parse_edge_nodes@dual',
-    'uxarray.grid.connectivity._populate_edge_node_connectivity']
+    'uxarray.grid.connectivity._populate_edge_node_connectivity',
+    'uxarray.grid.connectivity._populate_face_edge_connectivity',
+    'uxarray.grid.connectivity._populate_n_nodes_per_face']
 STANDINS = ["edges"]
 ASSUMPTIONS = []
 EXPLANATION = "builders under contract + bounded stand-in (catalogue meshes, exhaustive small tables, access orders)"
